@@ -245,12 +245,21 @@ def eval_shard(path):
 def eval_cases(workdir):
     shards = sorted(glob.glob(os.path.join(workdir, "cases_*.v")))
     results, errors = [], []
+    failed = []
     with ThreadPoolExecutor(max_workers=16) as ex:
         for path, pairs, out in ex.map(eval_shard, shards):
             if pairs is None:
-                errors.append((path, out))
+                failed.append(path)
             else:
                 results.extend(pairs)
+    # a shard that could not be evaluated in the parallel pass (machine load: a killed or starved coqc) is
+    # evaluated once more on its own before it counts as an error
+    for path in failed:
+        path, pairs, out = eval_shard(path)
+        if pairs is None:
+            errors.append((path, out))
+        else:
+            results.extend(pairs)
     return results, errors
 
 
